@@ -70,6 +70,7 @@ class Outcome:
     self.violations = []      # (description, replay_path)
     self.known = []           # (finding id, description)
     self.inconclusive = []    # strings
+    self.hard_inconclusive = []   # results that must be decided for the claim to stand
     self.harness_errors = []  # strings
     self.coverage = {}
     self.assumptions = []
@@ -105,8 +106,8 @@ class Outcome:
         'violations': len(self.violations),
     }
     ev['coverage']['known_findings_hit'] = [k for k, _ in self.known]
-    ev['coverage']['inconclusive'] = len(self.inconclusive)
-    ev['coverage']['inconclusive_samples'] = self.inconclusive[:5]
+    ev['coverage']['inconclusive'] = len(self.inconclusive) + len(self.hard_inconclusive)
+    ev['coverage']['inconclusive_samples'] = (self.hard_inconclusive + self.inconclusive)[:5]
     ev['coverage']['harness_errors'] = self.harness_errors[:5]
     os.makedirs(EVIDENCE_DIR, exist_ok=True)
     with open(os.path.join(EVIDENCE_DIR, '%s.json' % self.prop), 'w') as f:
@@ -123,6 +124,10 @@ class Outcome:
       for h in self.harness_errors[:5]:
         print('HARNESS-ERROR property=%s %s' % (self.prop, h[:2000]))
       code = 3
+    elif self.hard_inconclusive:
+      for h in self.hard_inconclusive[:8]:
+        print('INCONCLUSIVE property=%s %s' % (self.prop, h[:500]))
+      code = 2
     else:
       inc = len(self.inconclusive)
       if inc and (max_inconclusive_fraction is None or total is None
